@@ -10,8 +10,12 @@ func (c *Conversation) generateNewDHKeyPair() error {
 }
 
 func (c *Conversation) akeHasFinished() error {
+	// the MAC keys of the session that ends here (used ones and those already waiting) are not
+	// needed any more: they are revealed in the first data message of the new session
+	reveal := c.keys.macKeysToReveal()
 	c.keys.wipe()
 	c.keys = c.ake.keys
+	c.keys.oldMACKeys = append(c.keys.oldMACKeys, reveal...)
 	if c.msgState == encrypted {
 		c.ssid = c.ake.ssid
 		c.sentRevealSig = c.ake.sentRevealSig
